@@ -131,4 +131,38 @@ CHECKS = {
         "note": STD_NOTE + " from_utf8 is an environment model (C15).",
         "technique": "Coq proof (induction over the section list, first/last-match lemmas) + correspondence + metamorphic oracles on implementation outputs",
     },
+    "C07": {
+        "text": "Coq model in which every ElfStream method is ONE program over the CachingReader's operations (free monad), interpreted "
+                "over a stream (content, cache, I/O step counter, arbitrary fault schedule). Generic theorems for every program, cache state "
+                "and history: C07_cache_inv (the cache only ever holds true, fully read content ranges), C07_history_free (fault-free answers "
+                "depend only on content and call: any order, repetition, ranges sharing a start or an end), C07_methods_safe (every method "
+                "loads before it gets). Equivalence with the slice parser's model on the same bytes: C07_open_stream + C07_open_equiv "
+                "(opens IFF minimal_parse opens; identical header and header vectors), C07_section_data, C07_typed_views, C07_notes, "
+                "C07_segment_notes, C07_symbol_tables, C07_name_table, C07_by_name (same success, identical content; scoped to "
+                "non-compressed sections and absent/non-empty section header tables), C07_dynamic (slice Ok => stream Ok, same bytes). "
+                "Tie + metamorphic oracle: stream vs slice on the same bytes over scripted readers (chunked, Interrupted), random histories.",
+        "note": STD_NOTE + " Not proved as a theorem (tie + metamorphic oracle only): equivalence of symbol_version_table. Environment models: Read::read_exact / Seek contract, HashMap as association list.",
+        "technique": "Coq proof (free-monad refinement: real interpreter vs pure reading, per-method equivalence with the slice model) + differential correspondence + metamorphic stream-vs-slice oracle",
+    },
+    "C08": {
+        "text": "Coq theorems over the same stream model, for every method/program, every content, every cache state satisfying the invariant "
+                "and every fault schedule: C08_no_panic (incl. the `expect` in get_bytes), C08_alloc_and_read_bound (every buffer allocation "
+                "and every read is <= the stream length whatever the headers claim: the length guard precedes the allocation), C08_io_exact "
+                "(fault-free, the I/O of a call is exactly one seek + one allocation + one read per not-yet-cached range it loads: lazy, "
+                "nothing twice), C08_oversized_is_error (a range past the stream is BadOffset before any I/O). Tie: exact I/O trace of "
+                "implementation vs model; measured: largest single allocation <= 4*len + 8192 with a counting allocator, reads of "
+                "open_stream inside header/shdr[0]/declared tables (independent python oracle), streams claiming up to 2^64-1.",
+        "note": STD_NOTE + " Measured, not modelled: Vec growth of the header vectors and HashMap bucket growth (covered by the allocation bound oracle only). The statement that open reads only the header and the two tables is checked by the I/O-trace tie and the python oracle; the theorem gives it in the form 'exactly the loads of open_prog'.",
+        "technique": "Coq proof (trace invariant by induction over programs) + I/O-trace correspondence + allocation measurement",
+    },
+    "C17": {
+        "text": "Coq theorems over the stream model with an ARBITRARY fault schedule N -> option fault (error / premature EOF at any I/O "
+                "call incl. the initial seek): C17_call (any method from any state satisfying the invariant: the answer is an I/O error or "
+                "EXACTLY the fault-free content-only answer, never a panic, and the invariant survives), C17_history (every answer of every "
+                "history likewise: no residue), C17_open, C17_failed_load_leaves_cache. Tie + metamorphic oracle on the implementation: a "
+                "fault at every single I/O step (error, EOF, short read) and random multi-fault schedules; every query asked again after "
+                "the failure; each answer must be an error or equal the fault-free run.",
+        "note": STD_NOTE + " Environment model: a read_exact that fails delivers nothing the caller may use (std contract).",
+        "technique": "Coq proof (error-or-same by induction over programs, invariant preservation) + exhaustive single-fault injection correspondence",
+    },
 }
